@@ -29,7 +29,18 @@ pub fn check(c: &EncCase) -> Verdict {
     let env = if c.macros && !c.fnc1 { macro_envelope(&c.data) } else { None };
     let dm = match encode_obs(c) {
         EncOutcome::Ok(dm) => dm,
-        EncOutcome::Refused(_) => return Verdict::Pass(Pass::new(format!("{}/refused", c.stratum), false).count("refused", 1)),
+        EncOutcome::Refused(e) => {
+            // a complete envelope is compacted: the macro codeword + the body in plain ASCII is one legal
+            // encoding; if that fits the largest listed symbol the message must not be refused
+            if let Some((_, body)) = env {
+                let need = 1 + refimpl::codec::ascii_greedy(body);
+                let largest = mask_sorted_caps(c.list).last().copied().unwrap_or(0);
+                if c.modes & 1 == 1 && c.eci.is_none() && need <= largest {
+                    return fail(format!("input {:?} ({} bytes) is a complete macro envelope whose compacted form needs at most {} codewords (macro codeword + body as ASCII), the largest listed symbol holds {}, but the encoder refuses: {:?}", show(&c.data), c.data.len(), need, largest, e));
+                }
+            }
+            return Verdict::Pass(Pass::new(format!("{}/refused", c.stratum), false).count("refused", 1));
+        }
         EncOutcome::Panic(_) => return Verdict::Pass(Pass::new(format!("{}/encoder-panic(C11)", c.stratum), false).count("encoder_panics", 1)),
     };
     let cw = dm.data_codewords();
